@@ -107,6 +107,19 @@ impl IpDefragBuf {
             }
         }
 
+        // validate that no already received data lies behind the end
+        // announced by the last fragment
+        if false == more_fragments {
+            for section in &self.sections {
+                if section.end > end {
+                    return Err(ConflictingEnd {
+                        previous_end: section.end,
+                        conflicting_end: end,
+                    });
+                }
+            }
+        }
+
         // get enough memory to store the de-fragmented
         let required_len = usize::from(end);
         if self.data.len() < required_len {
